@@ -596,8 +596,8 @@ def run(tier):
         chk.extra["traces_validated_against_impl"] = sum(
             1 for c in cases for ch in c.checks if ch[1] == "run")
         chk.extra["disagreements"] = dis
-        for c in cases[:3]:
-            chk.sample({"grammar": c.grammar_text(), "strings": len(c.real)}, limit=4)
+    for c in cases[:3]:
+        chk.sample({"grammar": c.grammar_text(), "strings": len(c.real)}, limit=4)
     chk.extra["distribution"] = stats
     chk.trusted += [
         "compiled Lean validator run (validB = decide Valid) on each dumped table: that it returned true is "
